@@ -82,3 +82,16 @@ Print Assumptions C04_src_pin_common_allocate_file.
 Print Assumptions C04_src_pin_parfile_copy_worker.
 Print Assumptions C04_src_pin_parblock_dispatch_worker.
 Print Assumptions C04_src_pin_main_main.
+
+(* ---- further glue on this property's path, pinned token for token (an edit re-opens the obligation; the run then
+   looks for a failing input) ---- *)
+From XcpPins Require Import Pin_mod_load_driver Pin_parblock_new Pin_parfile_new.
+Theorem C04_src_pin_mod_load_driver : pin_unchanged name_mod_load_driver.
+Proof. exact pin_mod_load_driver. Qed.
+Theorem C04_src_pin_parblock_new : pin_unchanged name_parblock_new.
+Proof. exact pin_parblock_new. Qed.
+Theorem C04_src_pin_parfile_new : pin_unchanged name_parfile_new.
+Proof. exact pin_parfile_new. Qed.
+Print Assumptions C04_src_pin_mod_load_driver.
+Print Assumptions C04_src_pin_parblock_new.
+Print Assumptions C04_src_pin_parfile_new.
